@@ -187,6 +187,12 @@ def defaultA (k : NetKind) (nv : Nat) (na : Option Nat) : Nat :=
   | .binary => 0
   | .purif => na.getD nv
 
+/-- `gen_tensor = torch.zeros if zero_weights else torch.randn` (binary_rbm.py:51, purification_rbm.py:87):
+with `zero_weights=True` no generator draw is used and every weight matrix is the all-zeros token
+(`paramSpecs` reads a missing weight token as `zeroTok`). -/
+def weightToks (zeroWeights : Bool) (rand : List Tok) : List Tok :=
+  if zeroWeights then [] else rand
+
 /-- allocate a network object whose parameters are fresh tensors with the given contents -/
 def allocNet (h : Heap) (k : NetKind) (nv nh na : Nat) (specs : SD) : Heap × ObjId :=
   let r := allocTensors h specs
@@ -542,7 +548,12 @@ inductive SaverSrc where
 inductive Op where
   | construct (slot : Nat) (kind : Kind) (nv : Nat) (nh na : Option Nat)
       (ud : Option (List (String × Tok))) (rand : List (List Tok))
-  | mkModule (mslot : Nat) (k : NetKind) (nv : Nat) (nh na : Option Nat) (rand : List Tok)
+  /-- `BinaryRBM(nv, nh, zero_weights=zw)` / `PurificationRBM(nv, nh, na, zero_weights=zw)` held by the caller -/
+  | mkModule (mslot : Nat) (k : NetKind) (nv : Nat) (nh na : Option Nat) (zw : Bool) (rand : List Tok)
+  /-- `module.initialize_parameters()` (`zw = none`: the default `zero_weights=False`, whatever the
+  constructor was given — the module does not remember its constructor's flag) or
+  `module.initialize_parameters(zero_weights=b)` (`zw = some b`) on a module held by the caller -/
+  | initModule (mslot : Nat) (zw : Option Bool) (rand : List Tok)
   | constructFrom (slot : Nat) (kind : Kind) (mslot : Nat) (ud : Option (List (String × Tok)))
   /-- external in-place write into all parameters of one network of a state -/
   | write (slot : Nat) (net : String) (toks : List Tok)
@@ -570,9 +581,13 @@ def step (w : World) : Op → World × Option SErr
   | .construct slot kind nv nh na ud rand =>
     let r := constructSizes w.heap kind nv nh na ud rand
     ({ w with heap := r.1, states := upd w.states slot r.2 }, none)
-  | .mkModule mslot k nv nh na rand =>
-    let r := newNet w.heap k nv nh na rand
+  | .mkModule mslot k nv nh na zw rand =>
+    let r := newNet w.heap k nv nh na (weightToks zw rand)
     ({ w with heap := r.1, modules := upd w.modules mslot r.2 }, none)
+  | .initModule mslot zw rand =>
+    match w.modules mslot with
+    | none => (w, some unbound)
+    | some id => ({ w with heap := initParams w.heap id (weightToks (zw.getD false) rand) }, none)
   | .constructFrom slot kind mslot ud =>
     match w.modules mslot with
     | none => (w, some unbound)
